@@ -41,7 +41,33 @@ func c08(r *Report) {
 	r.Gate(Gate{ID: "C08.graph.highest-clock", Fn: da, Effect: SuccessReturn(), Check: ErrCheck(Fn(dag, "dag", "setHighestClockValue"))})
 	r.ArgIs("C08.graph.counter-is-stored-plus-added", da, Fn(dag, "dag", "setNumberOfTransactions"), 1, SumV(CallV(Fn(dag, "dag", "getNumberOfTransactions"), -1), LenV(ParamV("transactions"))), 1)
 	r.Gate(Gate{ID: "C08.graph.counter", Fn: da, Effect: SuccessReturn(), Check: ErrCheck(Fn(dag, "dag", "setNumberOfTransactions"))})
-	r.Gate(Gate{ID: "C08.graph.head", Fn: da, Effect: SuccessReturn(), Check: ErrCheck(Fn(dag, "dag", "setHead")), Alt: []Check{CallCheck(Fn("crypto/hash", "SHA256Hash", "Equals"), -1, IsTrue)}})
+	// setHead, or — when it is inlined into add (neutral/C08-n2) — the Put of the head-reference key itself
+	headPut := p.FnOrImpl(stoabsPkg, "Writer", "Put")
+	headKey, _ := p.ConstValue(dag, "headRefKey")
+	headWrite := AnyOf(Fn(dag, "dag", "setHead"), Callee{Desc: "Writer.Put(headRefKey, …)", M: func(cc *ssa.CallCommon) bool {
+		if !headPut.M(cc) {
+			return false
+		}
+		// stoabs.BytesKey(headRefKey) is a conversion of the constant (through MakeInterface to stoabs.Key)
+		a := CallArg(cc, 0)
+		for i := 0; i < 4 && a != nil; i++ {
+			if sv, isS := ConstString(StripConv(a)); isS {
+				return headKey != "" && sv == strings.Trim(headKey, "\"")
+			}
+			switch x := StripConv(a).(type) {
+			case *ssa.MakeInterface:
+				a = x.X
+			case *ssa.Convert:
+				a = x.X
+			case *ssa.ChangeType:
+				a = x.X
+			default:
+				a = nil
+			}
+		}
+		return false
+	}})
+	r.Gate(Gate{ID: "C08.graph.head", Fn: da, Effect: SuccessReturn(), Check: ErrCheck(headWrite), Alt: []Check{CallCheck(Fn("crypto/hash", "SHA256Hash", "Equals"), -1, IsTrue)}})
 	r.Gate(Gate{ID: "C08.graph.each-stored", Fn: da, Effect: CallEffect(Fn(dag, "dag", "setNumberOfTransactions")), ForEach: true, Check: ErrCheck(Fn(dag, "dag", "addSingle")),
 		Skip: []Check{CmpCheck("transaction == nil", token.EQL, AnyV(), NilV(), true)}})
 	// (2)
